@@ -12,9 +12,24 @@ macro_rules! props {
         $(pub mod $m;)*
         pub fn all_ids() -> Vec<&'static str> { vec![$($id),*] }
         pub fn get(id: &str) -> Option<PropDef> {
-            match id { $($id => Some($m::def()),)* _ => None }
+            let mut d = match id { $($id => Some($m::def()),)* _ => None }?;
+            // quick tier: fixed work, sized so that a check takes roughly 10-40 s on 16 cores
+            let mult: u64 = match id {
+                "C01" => 8, "C02" => 6, "C03" => 4, "C04" => 1, "C05" => 5, "C06" => 4, "C07" => 10, "C08" => 2,
+                "C09" => 1, "C10" => 5, "C11" => 8, "C12" => 6, "C13" => 10, "C14" => 1, "C15" => 8, "C16" => 5,
+                "C17" => 5, "C18" => 10, "C19" => 5, "C20" => 2, _ => 1,
+            };
+            for s in d.subs.iter_mut() {
+                if let crate::runner::Kind::Tape { quick, thorough, .. } = &mut s.kind {
+                    *quick *= mult;
+                    if *thorough < *quick * 4 {
+                        *thorough = *quick * 4;
+                    }
+                }
+            }
+            Some(d)
         }
     };
 }
 
-props!(("C01", c01), ("C02", c02), ("C03", c03), ("C04", c04), ("C05", c05), ("C06", c06), ("C07", c07), ("C08", c08), ("C09", c09), ("C10", c10), ("C11", c11), ("C12", c12), ("C13", c13), ("C14", c14), ("C15", c15), ("C16", c16), ("C17", c17), ("C18", c18), ("C19", c19));
+props!(("C01", c01), ("C02", c02), ("C03", c03), ("C04", c04), ("C05", c05), ("C06", c06), ("C07", c07), ("C08", c08), ("C09", c09), ("C10", c10), ("C11", c11), ("C12", c12), ("C13", c13), ("C14", c14), ("C15", c15), ("C16", c16), ("C17", c17), ("C18", c18), ("C19", c19), ("C20", c20));
